@@ -1,5 +1,6 @@
 import BctVerif.Lemmas.SynthRing
 import BctVerif.Lemmas.SynthEven
+import BctVerif.Lemmas.SynthDegSpec
 
 /-!
 # C20 — synthetic generators deliver the requested size, edge count and symmetry
@@ -9,19 +10,17 @@ every `n`, every `k` and every list of draws (a `rng.permutation(m)` is its m va
 rejects anything that is not a permutation of `0 … m-1`, which is what NumPy returns).
 `matSum` is the model's `np.sum`; `matSum_eq_sum` identifies it with `∑ i, ∑ j, C i j`.
 
-`makeevenCIJ` is modelled too (`evenCIJ`, template in closed form, `even_spec`); `maketoeplitzCIJ`,
-`makefractalCIJ`, `makerandCIJdegreesfixed` are checked by the Python predicates only.
+`makeevenCIJ` (`evenCIJ`, template in closed form, `even_spec`) and `makerandCIJdegreesfixed`
+(`degreesFixed`, recorded permutation and `randint` draws, `degreesfixed_spec`) are modelled too;
+`maketoeplitzCIJ` and `makefractalCIJ` are checked by the Python predicates only.
 
-## The ring lattice and defect D19
+## The ring lattice
 
-Full statement wanted by the property: *for every n and every k ≤ n(n-1)* the output has exactly k
-ones on the bands nearest the diagonal.  That is false for the code as it is: for even n the band
-at wrap-around distance n/2 is added twice (`seq[c-1] = seq2[c-1] = n/2`), so for
-n(n-2) < k ≤ n(n-1) the routine raises IndexError or returns n(n-2) ones (`ring_D19_witness_*`
-below, checked on the model by evaluation and on the real code by the harness; open known finding
-C20-D19).  `ring_spec_partial` therefore carries the explicit domain hypothesis
-`k ≤ ringCapacity n`, and `ringCapacity_odd` / `ringCapacity_even` give the capacity in closed form:
-n(n-1) for odd n (the whole feasible range), n(n-2) for even n.
+`ring_spec` holds for every n and every feasible k ≤ n(n-1), odd and even n.  (Before the `fix:`
+commit fec7170 the band at wrap-around distance n/2 of an even ring was added twice — former finding
+D19 — and the theorem needed the domain k ≤ n(n-2); the model's `band` now carries the same
+`np.minimum(…, 1)` as the code, and the former witnesses `n = 4, k = 10 / 12` are regression examples
+of the repaired behaviour below.)
 -/
 namespace Bct.C20
 open Bct Bct.Synth
@@ -86,32 +85,41 @@ theorem even_spec (n mx k szcl : Nat) (ds : List Nat) {C : AMat Int n} {rest : L
   obtain ⟨h1, h2, h3, h4⟩ := evenCIJ_core mx k szcl ds h hsz (by unfold clusterCount at hk1; exact_mod_cast hk1) hk2
   exact ⟨fun i j => h1 (i, j), h2, fun i j => h3 (i, j), h4⟩
 
+/-! ### makerandCIJdegreesfixed -/
+
+/-- `makerandCIJdegreesfixed(inv, outv)` with `sum(outv) = sum(inv)`: *if it returns* (the repair loop
+may give up with `BCTParamError`), then for every permutation / `randint` draw list the result is a
+0/1 matrix with empty diagonal whose row sums are the requested out-degrees and whose column sums are
+the requested in-degrees. -/
+theorem degreesfixed_spec (inv outv : Fin n → Nat) (ds : List Nat) {M : AMat Int n} {rest : List Nat}
+    (hsum : ((List.finRange n).map outv).sum = ((List.finRange n).map inv).sum)
+    (h : degreesFixed inv outv ds = .ok (M, rest)) :
+    (∀ i j, M.toFun i j = 0 ∨ M.toFun i j = 1) ∧ (∀ i, M.toFun i i = 0) ∧
+    (∀ i, ∑ j, M.toFun i j = outv i) ∧ (∀ j, ∑ i, M.toFun i j = inv j) :=
+  degreesFixed_core inv outv ds hsum h
+
 /-! ### ring lattice -/
 
-/-- number of cells on the bands the code fills correctly: wrap-around distance `1 … (n-1)/2` -/
-def ringCapacity (n : Nat) : Nat := nearCnt n ((n - 1) / 2)
+/-- every off-diagonal cell lies on one of the bands `1 … n/2` -/
+theorem ring_capacity (n : Nat) : nearCnt n (n / 2) = n * (n - 1) := nearCnt_full
 
-theorem ringCapacity_odd (h : n % 2 = 1) : ringCapacity n = n * (n - 1) := nearCnt_half_odd h
-theorem ringCapacity_even (h : n % 2 = 0) : ringCapacity n = n * (n - 2) := nearCnt_half_even h
-
-/-- `makeringlatticeCIJ(n, k)` on the domain `k ≤ ringCapacity n` (all feasible k for odd n,
-k ≤ n(n-2) for even n; see the header for D19), for every draw list:
+/-- `makeringlatticeCIJ(n, k)` for every n, every feasible `k ≤ n(n-1)` and every draw list:
 there are a number `c` of bands and a duplicate-free list `removed` of cells of band `c` with
 * `C i j = 1` iff the wrap-around distance of i and j is in `1 … c` and `(i,j)` was not removed, else 0
   (0/1 matrix, empty diagonal, every nearer band full, nothing beyond band c, wrap-around);
 * `|removed| = (cells on bands 1…c) − k` (excess removed from the outermost band only);
 * band c was needed: the bands `1 … c-1` hold fewer than k cells;
 * exactly k ones. -/
-theorem ring_spec_partial (n k : Nat) (hk : k ≤ ringCapacity n) (ds : List Nat)
+theorem ring_spec (n k : Nat) (hk : k ≤ n * (n - 1)) (ds : List Nat)
     {C : AMat Int n} {rest : List Nat} (h : ringLattice n k ds = .ok (C, rest)) :
     ∃ (c : Nat) (removed : List (Cell n)),
-      (c = 0 ∨ 2 * c < n) ∧
+      (c = 0 ∨ 2 * c ≤ n) ∧
       (∀ i j, C.toFun i j = if (1 ≤ cdist n i j ∧ cdist n i j ≤ c) ∧ (i, j) ∉ removed then 1 else 0) ∧
       (∀ p ∈ removed, cdist n p.1 p.2 = c) ∧ removed.Nodup ∧
       (removed.length : Int) = nearCnt n c - k ∧
       (c = 0 ∨ nearCnt n (c - 1) < k) ∧
       matSum C = k := by
-  obtain ⟨c, removed, S⟩ := ringLattice_spec k (by unfold ringCapacity at hk; exact_mod_cast hk) ds h
+  obtain ⟨c, removed, S⟩ := ringLattice_spec k (by rw [nearCnt_full]; exact_mod_cast hk) ds h
   refine ⟨c, removed, S.dom, fun i j => ?_, fun p hp => ?_, S.removed_nodup, S.removed_len, ?_, S.count⟩
   · have := S.vals (i, j)
     simp only [cellVal] at this
@@ -124,12 +132,12 @@ theorem ring_spec_partial (n k : Nat) (hk : k ≤ ringCapacity n) (ds : List Nat
     · right; exact_mod_cast h0
 
 /-- consequences in the words of the property -/
-theorem ring_bands (n k : Nat) (hk : k ≤ ringCapacity n) (ds : List Nat)
+theorem ring_bands (n k : Nat) (hk : k ≤ n * (n - 1)) (ds : List Nat)
     {C : AMat Int n} {rest : List Nat} (h : ringLattice n k ds = .ok (C, rest)) :
     (∀ i j, C.toFun i j = 0 ∨ C.toFun i j = 1) ∧ (∀ i, C.toFun i i = 0) ∧ matSum C = k ∧
     ∃ c, (∀ i j : Fin n, 1 ≤ cdist n i j → cdist n i j < c → C.toFun i j = 1) ∧
          (∀ i j : Fin n, c < cdist n i j → C.toFun i j = 0) := by
-  obtain ⟨c, removed, _, hv, hr, _, _, _, hcount⟩ := ring_spec_partial n k hk ds h
+  obtain ⟨c, removed, _, hv, hr, _, _, _, hcount⟩ := ring_spec n k hk ds h
   refine ⟨fun i j => ?_, fun i => ?_, hcount, c, fun i j h1 h2 => ?_, fun i j h1 => ?_⟩
   · rw [hv]; split_ifs <;> simp
   · rw [hv]; have : cdist n i i = 0 := by simp [cdist]
@@ -142,22 +150,10 @@ theorem ring_bands (n k : Nat) (hk : k ≤ ringCapacity n) (ds : List Nat)
     have : ¬ cdist n i j ≤ c := by omega
     simp [this]
 
-/-- on that domain the routine never raises IndexError, whatever the draws -/
-theorem ring_no_index_error (n k : Nat) (hk : k ≤ ringCapacity n) (ds : List Nat) :
+/-- for feasible k the routine never raises IndexError, whatever the draws -/
+theorem ring_no_index_error (n k : Nat) (hk : k ≤ n * (n - 1)) (ds : List Nat) :
     ringLattice n k ds ≠ .error .index :=
-  ringLattice_no_index_error k (by unfold ringCapacity at hk; exact_mod_cast hk) ds
-
-/-! ### D19 on the model: outside the domain the full statement fails -/
-
-/-- n = 4, k = 10: the doubled antipodal band makes the removal loop run off its permutation -/
-theorem ring_D19_witness_index : ringLattice 4 10 [0, 1, 2, 3] = .error .index := by decide +kernel
-
-/-- n = 4, k = 12 (= n(n-1), feasible): the whole antipodal band is deleted, 8 ones are returned -/
-theorem ring_D19_witness_count :
-    (ringLattice 4 12 [0, 1, 2, 3]).toOption.map (fun r => matSum r.1) = some 8 := by decide +kernel
-
-theorem ring_D19_outside_domain : ¬ (10 ≤ ringCapacity 4) ∧ ¬ (12 ≤ ringCapacity 4) := by
-  rw [ringCapacity_even (by decide)]; decide
+  ringLattice_no_index_error k (by rw [nearCnt_full]; exact_mod_cast hk) ds
 
 /-! ## non-vacuity -/
 
@@ -170,13 +166,20 @@ example : isPermOfRange ([4, 0, 5, 1, 2, 3, 9].take (3 * (3 - 1))) (3 * (3 - 1))
 example : clusterCount 4 2 1 = 4 := by decide +kernel
 example : (evenCIJ 4 2 6 1 [7, 0, 1, 2, 3, 4, 5, 6]).toOption
     = some (#v[#v[0, 1, 1, 0], #v[1, 0, 0, 0], #v[0, 0, 0, 1], #v[0, 1, 1, 0]], []) := by decide +kernel
--- ring: n = 5 (odd, capacity 20), k = 13: two bands, 7 cells removed from the outer one
-example : 13 ≤ ringCapacity 5 := by rw [ringCapacity_odd (by decide)]; decide
+-- degrees fixed: inv = outv = (1,1,1); the identity permutation forces two repairs (switch 1, then 0)
+example : (degreesFixed (n := 3) (fun _ => 1) (fun _ => 1) [0, 1, 2, 1, 0]).toOption
+    = some (#v[#v[0, 0, 1], #v[1, 0, 0], #v[0, 1, 0]], []) := by decide +kernel
+-- … and a draw sequence on which the repair loop gives up (BCTParamError), so "if it returns" matters
+example : (degreesFixed (n := 2) (fun i => if i = 0 then 1 else 0) (fun i => if i = 0 then 1 else 0) [0, 0]).toOption
+    = none := by decide +kernel
+-- ring: n = 5, k = 13: two bands, 7 cells removed from the outer one
 example : (ringLattice 5 13 [0, 1, 2, 3, 4, 5, 6, 7, 8, 9]).toOption
     = some (#v[#v[0, 1, 0, 0, 1], #v[1, 0, 1, 0, 0], #v[0, 1, 0, 1, 0], #v[0, 1, 1, 0, 1], #v[1, 1, 1, 1, 0]], []) := by
   decide +kernel
--- ring: n = 6 (even, capacity 24), k = 24: exactly the two inner bands
-example : 24 ≤ ringCapacity 6 := by rw [ringCapacity_even (by decide)]
+-- regression examples for the former D19 inputs (even n, k > n(n-2)): the antipodal band is added once
+example : (ringLattice 4 10 [3, 1, 0, 2]).toOption
+    = some (#v[#v[0, 1, 1, 1], #v[1, 0, 1, 0], #v[1, 1, 0, 1], #v[1, 0, 1, 0]], []) := by decide +kernel
+example : (ringLattice 4 12 [7]).toOption.map (fun r => (matSum r.1, r.2)) = some (12, [7]) := by decide +kernel
 example : (ringLattice 6 24 []).toOption.map (fun r => matSum r.1) = some 24 := by decide +kernel
 
 end Bct.C20
